@@ -20,6 +20,9 @@ Hessians, molecule-attached vectors and their nuclear derivatives; 3x3 blocking 
   are they compared - a result that a later call overwrote (shared work array) is seen.  Arrays are handed over
   C-ordered, Fortran-ordered or as strided windows (not the Hessian: blockwise_expand asserts contiguity); in half of
   the cases the caller's buffers are overwritten after each call (a result must not be a live view of its argument).
+  Coupling strengths are spread over the decades 1, 1e-3, 1e-6, 1e-9, 1e-12 (per case) and gradient, Hessian, vector and
+  vector derivatives are judged with a RELATIVE tolerance (1e-9 of the largest entry; the transforms are linear in what they
+  are given, the unchanged code stays below 1e-13): an absolute threshold inside a transform is seen on the weak fields.
 """
 import math
 from fractions import Fraction
@@ -498,7 +501,8 @@ def gen_oracle_case(rng, mill=None, n=None, opts=None):
             triples.append([i, j, k, rng.uniform(-1, 1)])
     return {"mill": mill, "x": x.tolist(), "c": c.tolist(), "r0": r0.tolist(), "w": w.tolist(), "triples": triples,
             "energy": rng.choice(["coulomb", "harmonic"]), "field": rng.choice(["invcube", "square"]),
-            "reuse_buffers": rng.random() < 0.5, "layout": rng.choice(["C", "C", "F", "view"])}
+            "reuse_buffers": rng.random() < 0.5, "layout": rng.choice(["C", "C", "F", "view"]),
+            "strength": rng.choice([1.0, 1.0, 1e-3, 1e-6, 1e-9, 1e-12])}
 
 
 def close(a, b, rtol=1e-9):
@@ -506,6 +510,18 @@ def close(a, b, rtol=1e-9):
     if a.shape != b.shape:
         return False
     scale = 1.0 + max(float(np.max(np.abs(a))) if a.size else 0.0, float(np.max(np.abs(b))) if b.size else 0.0)
+    return bool(np.all(np.abs(a - b) <= rtol * scale))
+
+
+def rclose(a, b, rtol=1e-9):
+    """RELATIVE comparison in the max norm: |a - b| <= rtol * max(|a|, |b|) entrywise against the largest entry of the pair.
+    The transforms are linear in the quantity they are given, so the unchanged code keeps a relative error ~1e-15 whatever the
+    coupling strength (1 ... 1e-12); an absolute threshold anywhere in the transform (entries below some epsilon dropped or
+    rounded) shows up for the weak fields."""
+    a, b = np.asarray(a, dtype=float), np.asarray(b, dtype=float)
+    if a.shape != b.shape:
+        return False
+    scale = max(float(np.max(np.abs(a))) if a.size else 0.0, float(np.max(np.abs(b))) if b.size else 0.0)
     return bool(np.all(np.abs(a - b) <= rtol * scale))
 
 
@@ -552,10 +568,11 @@ def transform(m, md, case, x, tag="", scale=1.0):
     lay = case.get("layout", "C")           # memory layout of the arrays handed over (the Hessian stays C-contiguous: blockwise_expand
     #                                         documents and asserts that it only accepts contiguous arrays)
     c, r0, w = (np.array(case[k], dtype=float) for k in ("c", "r0", "w"))
+    scale = scale * float(case.get("strength", 1.0))      # coupling strength of this case: 1, 1e-3, ... 1e-12 (everything is linear in it)
     c, w = c * scale, w * scale
     triples = [(i, j, k, cc * scale) for (i, j, k, cc) in (tuple(t) for t in case.get("triples", []))]
     E, g, H = total_energy(case, x, c, r0, triples)
-    out = {"tag": tag, "md": md, "x": np.array(x, copy=True), "c": c, "r0": r0, "w": w, "triples": triples, "E": E, "H": H}
+    out = {"tag": tag, "md": md, "x": np.array(x, copy=True), "c": c, "r0": r0, "w": w, "triples": triples, "E": E, "H": H, "scale": scale}
     out["y"] = pure(m.align_coordinates, x, tag + "align_coordinates", reuse, lay)
     out["ag"] = pure(m.align_gradient, g, tag + "align_gradient", reuse, lay)
     out["ah"] = pure(m.align_hessian, H, tag + "align_hessian", reuse)
@@ -592,13 +609,15 @@ def judge(case, t):
     q = [p.index(k) for k in range(n)]          # atom k of x is atom q[k] of the aligned geometry
     tq = [(q[i], q[j], q[k], cc) for (i, j, k, cc) in triples]
     E2, g2, H2 = total_energy(case, np.asarray(y, dtype=float), c[ix], r0[ix], tq)
-    if not close(t["E"], E2):
+    # (the energy never passes through the implementation - it tests that the aligned geometry is a rigid motion of the original;
+    #  its terms cancel, so it is compared in units of the coupling strength with the absolute-plus-relative rule of close())
+    if not close(t["E"] / abs(t["scale"]), E2 / abs(t["scale"])):
         raise Bad(tag + "energy not invariant under the recipe's rigid motion", {"E": t["E"], "E_aligned": E2})
     ag = t["ag"]
-    if not close(ag, g2):
+    if not rclose(ag, g2):
         raise Bad(tag + "gradient at aligned geometry != aligned gradient" + LATER, {"aligned": np.asarray(ag).tolist(), "at_aligned": g2.tolist()})
     ah = t["ah"]
-    if not close(ah, H2):
+    if not rclose(ah, H2):
         k = int(np.argmax(np.abs(np.asarray(ah) - H2))) if np.asarray(ah).shape == H2.shape else -1
         raise Bad(tag + "Hessian at aligned geometry != aligned Hessian" + LATER,
                   {"worst_flat_index": k, "max_abs_diff": float(np.max(np.abs(np.asarray(ah) - H2))) if k >= 0 else None})
@@ -606,10 +625,10 @@ def judge(case, t):
     if not md["mirror"]:
         mu2, J2 = vector_field(case["field"], np.asarray(y, dtype=float), w[ix], tq)
         av = t["av"]
-        if not close(av, mu2):
+        if not rclose(av, mu2):
             raise Bad(tag + "vector at aligned geometry != aligned vector" + LATER, {"aligned": np.asarray(av).tolist(), "at_aligned": mu2.tolist()})
         aj = t["aj"]
-        if not close(aj, J2):
+        if not rclose(aj, J2):
             raise Bad(tag + "vector derivatives at aligned geometry != aligned vector derivatives" + LATER,
                       {"max_abs_diff": float(np.max(np.abs(np.asarray(aj) - J2))) if np.asarray(aj).shape == J2.shape else None})
 
@@ -908,8 +927,9 @@ LEVEL_TEXT = (
     "(identity/general rotation x zero/non-zero shift x identity/non-involutive map x mirror), a second geometry and a second "
     "set of couplings through the same live recipe object plus the inverse recipe for the same atom count, all results RETAINED as "
     "returned and judged only after all calls (a result overwritten by a later call is seen), arguments in C/Fortran/strided "
-    "layout, caller's buffers overwritten after the call in half of the cases, and a check that no method modifies the array it "
-    "is given.")
+    "layout, caller's buffers overwritten after the call in half of the cases, coupling strengths over the decades 1 ... 1e-12 "
+    "judged with a relative tolerance (1e-9 of the largest entry of gradient / Hessian / vector / vector derivatives), and a "
+    "check that no method modifies the array it is given.")
 LEVEL_NOTE = (
     "Clause map: invariant-energy gradient/Hessian covariance -> C13_invariant_energy_gradient_covariant/_hessian_covariant (+ "
     "coords_affine, gradient_is_L, hessian_is_LHLt, L_orthogonal, line_transport); per-atom arrays -> C13_atoms_same_map; vectors "
